@@ -317,3 +317,4 @@ def check(ctx, rep):
     _check_main(ctx, rep)
     metarules.metaclass_identity(ctx, rep, "C15.M")
     shared.unused_params(ctx, rep, "C15.PARAM", ["spec_classes.types.validated", "spec_classes.utils.type_checking"], floor=3)
+    metarules.closure_captures_params(ctx, rep, "C15.B")
